@@ -1,4 +1,4 @@
 From Coq Require Import Extraction ExtrOcamlBasic NArith List.
 From SV.Json Require Import Chars StrScan NumScan Fsm Fast.
 Extraction Language OCaml.
-Separate Extraction validate_one skip_one_at Valid Valid_post CheckTrailings scan_scalar advance_string_default do_skip_number skip_one_fast_1.
+Separate Extraction validate_one skip_one_at Valid Valid_post CheckTrailings scan_scalar advance_string_default do_skip_number skip_one_fast_1 skip_one_vs.
